@@ -182,7 +182,10 @@ def walkIdx (g : Globals) (tb : String) (up : Bool) (dropCols : List String) : L
 def addedIdx (g : Globals) (tb : String) : List Index → M (List Stmt)
   | [] => pure []
   | i :: rest => do
-    let ss ← (if i.action == .add then i.migrationUp g tb else pure [] : M (List Stmt))
+    -- a renamed index of a new table is created under its new name
+    let ss ← (if i.action == .add then i.migrationUp g tb
+              else if i.action == .rename then Index.migrationUp g { i with action := .add } tb
+              else pure [] : M (List Stmt))
     let rs ← addedIdx g tb rest
     pure (ss ++ rs)
 
